@@ -101,6 +101,7 @@ package resource
 //@ func (*Value).set(value, request) (res, err)
 //@   requires wfValue(recv) && !isnil(value)
 //@   requires ref(value) != ref(recv.value)     // callers hand in their own message, never the stored one
+//@   requires isnil(recv.value) || sametype(value, recv.value)     // ... of the type the value holds
 //@   track Send
 //@   // C01: a failing call changes nothing and emits nothing (the only error after the commit is the send timeout, C09)
 //@   ensures [fail-unchanged] err != nil && calls(Send) == old(calls(Send)) ==> recv.value == old(recv.value) && recv.changeTime == old(recv.changeTime)
